@@ -129,6 +129,11 @@ func (t *tr) bigMethod(recv *val, m string, ce *ast.CallExpr) callRes {
 			return r
 		}
 	}
+	if m == "BitLen" {
+		// first pass (loops abstracted): a bit length hoisted out of a loop header
+		t.nargs(ce, 0)
+		return one(&val{t: tInt, e: "BabyJubCore.bitlen " + par(t.valueOf(recv))})
+	}
 	t.fail("unsupported big.Int method %s", m)
 	return callRes{}
 }
